@@ -5,8 +5,8 @@ import IceProofs.Sys2C05
 
 `microEvs s e`: the agent events one system event makes the agents execute (at most one per agent: an API call, the
 delivery of an in-flight datagram to its owner, the timer ticks of `advance` — A first).  `Hist`: the monotone history
-the two-agent theorems speak about — the log of nominations the controlling agent A issued, the nomination whose
-success response A processed last, the nomination value B accepted last (with the address pair it arrived on).
+the two-agent theorems speak about — the log of nominations the controlling agent A issued, the log of those whose
+success response A processed, the nomination value B accepted last (with the address pair it arrived on).
 `hist s evs`: the history accumulated along a schedule, every agent event judged in the state the agent executes it in.
 -/
 namespace IceProofs.C20S
@@ -18,8 +18,8 @@ abbrev Nomination := Nat × Nat × Nat
 structure Hist where
   /-- nominations issued by A (`RenominateCandidate` not refused), oldest first -/
   issued : List Nomination := []
-  /-- the nomination of A whose success response A processed last (transaction matched, pair found) -/
-  answered : Option Nomination := none
+  /-- the nominations of A whose success response A has processed (transaction matched, pair found), oldest first -/
+  answered : List Nomination := []
   /-- the value B accepted last, with B's local address and the source address it arrived from -/
   accepted : Option Nomination := none
   deriving Repr, DecidableEq
@@ -34,7 +34,7 @@ def answeredNom (a : Agent) (ev : Ev) : Option Nomination :=
 def hstep (h : Hist) (X : Bool) (a : Agent) (ev : Ev) : Hist :=
   if X then { h with accepted := (acceptAt a ev).orElse fun _ => h.accepted }
   else { h with issued := h.issued ++ (issueOf a ev).toList,
-                answered := (answeredNom a ev).orElse fun _ => h.answered }
+                answered := h.answered ++ (answeredNom a ev).toList }
 
 /-- the agent events of one system event -/
 def microEvs (s : Sys) : SysEv → List (Bool × Ev)
